@@ -296,6 +296,52 @@ func normMethod(m string) string {
 	return "TPost"
 }
 
+// configured numbers are float64 values: the literal the model carries for them is the text
+// encoding/json prints (the model's encoder writes number literals as they are)
+func jsonNumbers(v interface{}) interface{} {
+	switch x := v.(type) {
+	case float64:
+		b, err := json.Marshal(x)
+		if err != nil {
+			return x
+		}
+		return json.Number(string(b))
+	case []interface{}:
+		r := make([]interface{}, len(x))
+		for i, e := range x {
+			r[i] = jsonNumbers(e)
+		}
+		return r
+	case map[string]interface{}:
+		r := make(map[string]interface{}, len(x))
+		for k, e := range x {
+			r[k] = jsonNumbers(e)
+		}
+		return r
+	}
+	return v
+}
+
+func (sc *scenario) allValid() bool {
+	if !utf8.ValidString(sc.query) || !utf8.ValidString(sc.name) || !validStrings(mapOrNil(sc.vars)) {
+		return false
+	}
+	for k, v := range sc.params {
+		if !utf8.ValidString(k) || !utf8.ValidString(v) {
+			return false
+		}
+	}
+	return true
+}
+
+// the case for one request: with the raw bytes of the body when the POST transport sent one
+func caseTerm(sc *scenario, be *config.Backend, o outcome) string {
+	if o.kind == "sent" && normMethod(sc.method) == "TPost" && sc.allValid() {
+		return emit.App("CStackRaw", sc.term(be), o.term(), emit.Str(o.s.rawBody))
+	}
+	return emit.App("CStack", sc.term(be), o.term())
+}
+
 func (sc *scenario) term(be *config.Backend) string {
 	kind, obj := classifyBody(sc.body)
 	body := kind
@@ -307,7 +353,7 @@ func (sc *scenario) term(be *config.Backend) string {
 		vars = map[string]interface{}{}
 	}
 	opts := fmt.Sprintf("{| o_query := %s; o_name := %s; o_vars := %s; o_type := %s; o_method := %s |}",
-		emit.Str(sc.query), emit.Str(sc.name), emit.Obj(vars), normType(sc.typ), normMethod(sc.method))
+		emit.Str(sc.query), emit.Str(sc.name), emit.Obj(jsonNumbers(vars).(map[string]interface{})), emit.App("type_of", emit.Str(sc.typ)), emit.App("norm_method", emit.Str(sc.method)))
 	method, hdrs, qs := strings.ToUpper(sc.epMethod), sc.hdrAllow, sc.qsAllow
 	if be != nil {
 		method, hdrs, qs = be.Method, be.HeadersToPass, be.QueryStringsToPass
@@ -481,7 +527,7 @@ func (g *gen) add(stream string, sc *scenario) {
 		sc.params = map[string]string{}
 	}
 	o, be := execute(sc)
-	term := emit.App("CStack", sc.term(be), o.term())
+	term := caseTerm(sc, be, o)
 	js := sc.js()
 	js["stream"] = stream
 	js["observed"] = o.js()
@@ -527,5 +573,7 @@ func main() {
 	e2eCases(g)
 	reuseRandom(g)
 	reuseConcurrent(g)
-	g.w.Close("complete default backend stack (NewDefaultFactory over NewHTTPProxyWithHTTPExecutor, recording executor; received body and URL query decoded with encoding/json / net/url, trees compared): corpus of the recorded defects; exhaustive small scope = 30 variable value shapes x {query,mutation} x {POST,GET} x 4 parameter sets x 2 operation names, and 34 client bodies x 4 default sets x 2 transports; config.Init capitalisation of path parameter names; random configurations (strings over quotes, backslashes, controls, %, U+2028, astral, braces), random and malformed client bodies; arbitrary byte strings (every byte 0x80..0xff, UTF-8 boundary / overlong / surrogate / truncated sequences, random bytes) at 10 places (path parameter, query text, operation name, variable value and name, client body string x transport) and json.Marshal of byte strings against the escape model (every byte, boundary sequences, random); the same stack entered through the gin endpoint handler with the parameters taken from the escaped request path; instance reuse: one stack instance serving sequences of 3-7 different requests (12 fixed orders x 2 transports, random sequences) and 12 goroutines x 150 iterations over 12 distinct requests per configuration, each distinct (request, observation) pair once; nontrivial = at least one variable or a mutation", true)
+	concurrentCalls(g)
+	optionSpellings(g)
+	g.w.Close("complete default backend stack (NewDefaultFactory over NewHTTPProxyWithHTTPExecutor, recording executor; received body and URL query decoded with encoding/json / net/url, trees compared): corpus of the recorded defects; exhaustive small scope = 30 variable value shapes x {query,mutation} x {POST,GET} x 4 parameter sets x 2 operation names, and 34 client bodies x 4 default sets x 2 transports; config.Init capitalisation of path parameter names; random configurations (strings over quotes, backslashes, controls, %, U+2028, astral, braces), random and malformed client bodies; arbitrary byte strings (every byte 0x80..0xff, UTF-8 boundary / overlong / surrogate / truncated sequences, random bytes) at 10 places (path parameter, query text, operation name, variable value and name, client body string x transport) and json.Marshal of byte strings against the escape model (every byte, boundary sequences, random); the same stack entered through the gin endpoint handler with the parameters taken from the escaped request path; instance reuse: one stack instance serving sequences of 3-7 different requests (12 fixed orders x 2 transports, random sequences) and 12 goroutines x 150 iterations over 12 distinct requests per configuration, each distinct (request, observation) pair once; concurrent_calls 2..4: every attempt held at the executor until all have arrived, each attempt's request compared; spelling of type and method (case variants, Unicode case mappings onto ASCII, other types and methods) probed through the stack against the model of GetOptions; POST bodies also compared byte for byte with the model's encoder; nontrivial = at least one variable or a mutation", true)
 }
